@@ -42,6 +42,7 @@ package spine
 //@   ensures[C15] sync-each: forall j int :: 0 <= j && j < len(S) && isCore(old(S[j])) ==> dh[old(dn) + Ccnt(j)] == old(S[j].Handler) && dp[old(dn) + Ccnt(j)] == payload && dsp[old(dn) + Ccnt(j)] == old(spawnn)
 //@   ensures[C15] async-count: spawnn == old(spawnn) + Acnt(len(S))
 //@   ensures[C15] async-each: forall j int :: 0 <= j && j < len(S) && isApp(old(S[j])) ==> spawnfn[old(spawnn) + Acnt(j)] == methodid("(github.com/enbility/spine-go/api.EventHandlerInterface).HandleEvent") && spawnarg(old(spawnn) + Acnt(j), 0, api.EventHandlerInterface) == old(S[j].Handler) && spawnarg(old(spawnn) + Acnt(j), 1, api.EventPayload) == payload
+//@   ensures[C15] async-mono: spawnn >= old(spawnn)
 //@   ensures[C15] async-only: forall d int :: old(spawnn) <= d && d < spawnn ==> spawnfn[d] == HE
 //@   ensures[C15] log-older: forall d int :: d < old(spawnn) ==> spawnfn[d] == old(spawnfn)[d] && spawnarg(d, 0, api.ResponseMessage) == old(spawnarg(d, 0, api.ResponseMessage))
 //@   ensures[C15] locks-released: !held(r.mu) && !held(r.muHandle)
@@ -265,13 +266,13 @@ package spine
 //@   requires r != nil && r.responseMsgCallback != nil
 //@   let M = r.responseMsgCallback
 //@   let L0 = ite(has(r.responseMsgCallback, msgCounterReference), r.responseMsgCallback[msgCounterReference], nil)
-//@   ensures[C14] once-each: spawnn == old(spawnn) + len(L0) && forall j int :: 0 <= j && j < len(L0) ==> spawnfn[old(spawnn) + j] == old(L0[j]) && spawnarg(old(spawnn) + j, 0, api.ResponseMessage) == msg
+//@   ensures[C14] once-each: spawnn == old(spawnn) + len(L0) && forall d int :: old(spawnn) <= d && d < spawnn ==> spawnfn[d] == old(L0[d - old(spawnn)]) && spawnarg(d, 0, api.ResponseMessage) == msg
 //@   ensures[C14] consumed: !has(M, msgCounterReference)
 //@   ensures[C14] log-older: forall d int :: d < old(spawnn) ==> spawnfn[d] == old(spawnfn)[d] && spawnarg(d, 0, api.ResponseMessage) == old(spawnarg(d, 0, api.ResponseMessage))
 //@   ensures[C14] others-untouched: forall k model.MsgCounterType :: k != msgCounterReference ==> has(M, k) == old(has(M, k)) && M[k] == old(M[k])
 //@   modifies map(gomap[model.MsgCounterType][]func(api.ResponseMessage)), held, spawn
 //@   loop 0 invariant count: spawnn == pre(spawnn) + $k
-//@   loop 0 invariant each: forall j int :: 0 <= j && j < $k ==> spawnfn[pre(spawnn) + j] == $s[j] && spawnarg(pre(spawnn) + j, 0, api.ResponseMessage) == msg
+//@   loop 0 invariant each: forall d int :: pre(spawnn) <= d && d < spawnn ==> spawnfn[d] == $s[d - pre(spawnn)] && spawnarg(d, 0, api.ResponseMessage) == msg
 //@   loop 0 invariant older: forall d int :: d < pre(spawnn) ==> spawnfn[d] == pre(spawnfn)[d] && spawnarg(d, 0, api.ResponseMessage) == pre(spawnarg(d, 0, api.ResponseMessage))
 
 //@ func (*FeatureLocal).AddResultCallback
@@ -283,12 +284,12 @@ package spine
 //@ func (*FeatureLocal).processResultCallbacks
 //@   requires r != nil
 //@   let L0 = r.resultCallbacks
-//@   ensures[C14] once-each: spawnn == old(spawnn) + len(L0) && forall j int :: 0 <= j && j < len(L0) ==> spawnfn[old(spawnn) + j] == old(L0[j]) && spawnarg(old(spawnn) + j, 0, api.ResponseMessage) == msg
+//@   ensures[C14] once-each: spawnn == old(spawnn) + len(L0) && forall d int :: old(spawnn) <= d && d < spawnn ==> spawnfn[d] == old(L0[d - old(spawnn)]) && spawnarg(d, 0, api.ResponseMessage) == msg
 //@   ensures[C14] kept: r.resultCallbacks == L0
 //@   ensures[C14] log-older: forall d int :: d < old(spawnn) ==> spawnfn[d] == old(spawnfn)[d] && spawnarg(d, 0, api.ResponseMessage) == old(spawnarg(d, 0, api.ResponseMessage))
 //@   modifies held, spawn
 //@   loop 0 invariant count: spawnn == pre(spawnn) + $k
-//@   loop 0 invariant each: forall j int :: 0 <= j && j < $k ==> spawnfn[pre(spawnn) + j] == $s[j] && spawnarg(pre(spawnn) + j, 0, api.ResponseMessage) == msg
+//@   loop 0 invariant each: forall d int :: pre(spawnn) <= d && d < spawnn ==> spawnfn[d] == $s[d - pre(spawnn)] && spawnarg(d, 0, api.ResponseMessage) == msg
 //@   loop 0 invariant older: forall d int :: d < pre(spawnn) ==> spawnfn[d] == pre(spawnfn)[d] && spawnarg(d, 0, api.ResponseMessage) == pre(spawnarg(d, 0, api.ResponseMessage))
 
 //@ func (*FeatureLocal).processResult
@@ -301,8 +302,8 @@ package spine
 //@   ensures[C14] rejects-malformed: (result != nil) <==> !ok
 //@   ensures[C14] silent: !fires ==> spawnn == old(spawnn)
 //@   ensures[C14] fires-count: fires ==> spawnn == old(spawnn) + len(CBS) + len(RCBS)
-//@   ensures[C14] fires-response: fires ==> forall j int :: 0 <= j && j < len(CBS) ==> spawnfn[old(spawnn) + j] == old(CBS[j]) && spawnarg(old(spawnn) + j, 0, api.ResponseMessage).MsgCounterReference == old(*REF) && spawnarg(old(spawnn) + j, 0, api.ResponseMessage).FeatureRemote == old(message.FeatureRemote) && spawnarg(old(spawnn) + j, 0, api.ResponseMessage).Data.(*model.ResultDataType) == old(message.Cmd.ResultData)
-//@   ensures[C14] fires-result: fires ==> forall j int :: 0 <= j && j < len(RCBS) ==> spawnfn[old(spawnn) + len(CBS) + j] == old(RCBS[j]) && spawnarg(old(spawnn) + len(CBS) + j, 0, api.ResponseMessage).MsgCounterReference == old(*REF)
+//@   ensures[C14] fires-response: fires ==> forall d int :: old(spawnn) <= d && d < old(spawnn) + len(CBS) ==> spawnfn[d] == old(CBS[d - old(spawnn)]) && spawnarg(d, 0, api.ResponseMessage).MsgCounterReference == old(*REF) && spawnarg(d, 0, api.ResponseMessage).FeatureRemote == old(message.FeatureRemote) && spawnarg(d, 0, api.ResponseMessage).Data.(*model.ResultDataType) == old(message.Cmd.ResultData)
+//@   ensures[C14] fires-result: fires ==> forall d int :: old(spawnn) + len(CBS) <= d && d < spawnn ==> spawnfn[d] == old(RCBS[d - old(spawnn) - len(CBS)]) && spawnarg(d, 0, api.ResponseMessage).MsgCounterReference == old(*REF)
 //@   ensures[C14] consumed: fires ==> !has(r.responseMsgCallback, old(*REF))
 //@   modifies map(gomap[model.MsgCounterType][]func(api.ResponseMessage)), held, spawn
 
@@ -313,7 +314,7 @@ package spine
 //@   ensures[C14] rejected-silent: result != nil ==> spawnn == old(spawnn) && evn == old(evn)
 //@   ensures[C14] rejected-keeps-registration: result != nil ==> forall k model.MsgCounterType :: has(r.responseMsgCallback, k) == old(has(r.responseMsgCallback, k)) && r.responseMsgCallback[k] == old(r.responseMsgCallback[k])
 //@   define HE = methodid("(github.com/enbility/spine-go/api.EventHandlerInterface).HandleEvent")
-//@   ensures[C14] accepted-fires: result == nil ==> spawnn - len(CBS) >= old(spawnn) && forall j int :: 0 <= j && j < len(CBS) ==> spawnfn[spawnn - len(CBS) + j] == old(CBS[j]) && spawnarg(spawnn - len(CBS) + j, 0, api.ResponseMessage).MsgCounterReference == old(*REF) && spawnarg(spawnn - len(CBS) + j, 0, api.ResponseMessage).FeatureRemote == old(message.FeatureRemote) && spawnarg(spawnn - len(CBS) + j, 0, api.ResponseMessage).Data == cmdValue(old(message.Cmd))
+//@   ensures[C14] accepted-fires: result == nil ==> spawnn - len(CBS) >= old(spawnn) && forall d int :: spawnn - len(CBS) <= d && d < spawnn ==> spawnfn[d] == old(CBS[d - (spawnn - len(CBS))]) && spawnarg(d, 0, api.ResponseMessage).MsgCounterReference == old(*REF) && spawnarg(d, 0, api.ResponseMessage).FeatureRemote == old(message.FeatureRemote) && spawnarg(d, 0, api.ResponseMessage).Data == cmdValue(old(message.Cmd))
 //@   ensures[C14] accepted-only: result == nil ==> forall d int :: old(spawnn) <= d && d < spawnn - len(CBS) ==> spawnfn[d] == HE
 //@   ensures[C14] accepted-event: result == nil ==> evn == old(evn) + 1 && ev[old(evn)].EventType == api.EventTypeDataChange && ev[old(evn)].Feature == old(message.FeatureRemote) && ev[old(evn)].Function == cmdFct(old(message.Cmd)) && ev[old(evn)].Data == cmdValue(old(message.Cmd))
 //@   modifies map(gomap[model.MsgCounterType][]func(api.ResponseMessage)), held, @PUBLISH
